@@ -483,3 +483,26 @@ Proof.
   exists RProvider, SStd, Web, RevAccess, true, (PAt 2 (K (BOidc EAccessDenied false) true)),
     (K (BOidc EAccessDenied false) true), []. split; reflexivity.
 Qed.
+
+(* ---- end_session: every combination of request parameters ---- *)
+Lemma end_session_variants : forall r sv c hint cid plr st p,
+  let f := FEndSession c (EndReq hint cid plr st) in
+  handler r sv f = handler r sv (FEndSession c (EndReq hint cid false false)) /\
+  (hit p (handler r sv f) = true ->
+   let a := answer p (handler r sv f) in
+   (r_cls a = K4xx \/ r_cls a = K5xx) /\ r_creds a = []).
+Proof.
+  intros r sv c hint cid plr st p f. split; [reflexivity|].
+  intros Hhit a.
+  assert (Hc : closed_answer f a = true /\ r_creds a = [] /\ r_cls a <> K302Err).
+  { assert (Hall : fail_closed_prog (fun x => closed_answer f x && match r_creds x with [] => true | _ => false end
+                                      && negb (rclass_beq (r_cls x) K302Err)) (fun _ _ => false) (handler r sv f) = true).
+    { subst f. destruct r, sv, hint, cid; vm_compute; reflexivity. }
+    pose proof (fail_closed_run _ _ _ Hall p Hhit (fun _ _ _ => eq_refl)) as H.
+    fold a in H. apply andb_true_iff in H as [H H3]. apply andb_true_iff in H as [H1 H2].
+    repeat split; [exact H1 | destruct (r_creds a); [reflexivity | discriminate H2] |].
+    intro E. rewrite E in H3. discriminate H3. }
+  destruct Hc as [Hc [Hn Hne]]. split; [|exact Hn].
+  destruct (closed_answer_spec f a Hc) as [[H|[H|[H|[H Hi]]]] _]; auto; try contradiction.
+  subst f. discriminate Hi.
+Qed.
